@@ -252,6 +252,9 @@ func (c *engineCampaign) run(r *Result) {
 	n := tierN(c.quick, c.thorough)
 	workers := 8
 	per := (n + workers - 1) / workers
+	if c.crashes > 0 {
+		phase(0.6)
+	}
 	parallel(workers, workers, func(w int) {
 		m := getModel()
 		defer putModel(m)
@@ -290,6 +293,7 @@ func (c *engineCampaign) run(r *Result) {
 			}
 		}
 	})
+	phase(1)
 	if c.crashes > 0 {
 		// the property must also hold across a restart: a small crash-replay campaign (every write prefix)
 		crashCampaign(c.prop, r, c.crashes, c.crashes*20, false)
